@@ -22,6 +22,8 @@ Decides the clauses whose truth is in the shape of pynguin's code:
 Equality of results and side effects for arbitrary programs is not decided; the tracer still evaluates
 the mirrored and the complementary comparison on the operands (user operators run twice / the
 complementary one runs at all) - contained, but not removed.
+Further clauses (added later): Tracer callbacks are also interpreted for receivers whose attribute lookup
+raises KeyError / ZeroDivisionError / decimal signals (nothing may escape into the module under test).
 """
 
 from __future__ import annotations
